@@ -31,6 +31,7 @@ for P in "$@"; do
   if [ $RC -eq 1 ]; then
     SIG=$(grep -m1 -o 'signature=[^ ]*' "$SCR/out.$P")
     FIRED="$FIRED $P($SIG)"
+    mkdir -p /tmp/vmut-fired && head -c 200000 "$SCR/out.$P" > "/tmp/vmut-fired/$NAME.$P.out"   # kept for diagnosis only
   elif [ $RC -eq 0 ]; then SILENT="$SILENT $P"; else SILENT="$SILENT $P[rc=$RC]"; fi
   rm -rf "$SCR/work"/*
 done
